@@ -500,8 +500,14 @@ func (f *FrameV1) AppendixData() []byte {
 func (f *FrameV1) SetAppendixData(appendix []byte) error {
 	origDataSize := len(f.data)
 
-	// Expand data so we have enough space.
-	f.data = f.data[:cap(f.data)]
+	// Expand data so we have enough space, but keep the overhead margin behind
+	// the frame free: the link needs it to send the frame.
+	limit := cap(f.data)
+	if f.builder != nil {
+		_, overhead := f.builder.FrameMargins()
+		limit = max(limit-overhead, origDataSize)
+	}
+	f.data = f.data[:limit]
 
 	// Add appendix data.
 	var endIndex int
